@@ -23,6 +23,7 @@ RULE = ("for every composition of length <= Lc (quick 10, thorough 12) the delta
         "<=400 residues); hill-climbed arrangements for compositions with >= 18 neutrals; anchors. distinct = distinct charge pattern; non-trivial = deltaMax != 0 (kappa defined)")
 RULE += ("; added after the mutation rounds: ordered groups of compositions whose decimal digit strings coincide analysed one after another; long almost uncharged chains; the first cases of every shard are judged again at its end")
 RULE += ("; round 7: minority blocks of 1-10 residues in majority runs 5-12 times longer with 0-2 neutrals; chains of more than 1000 residues sharing both ends")
+RULE += ("; round 9: the delta-max permutant asked for at a random place among the other calls")
 EXHAUSTIVE = {"quick": False, "thorough": False}
 EXHAUSTIVE_NOTE = {"quick": "all patterns of length <= 9; maximisers of all compositions of length <= 10",
                    "thorough": "all patterns of length <= 11; maximisers of all compositions of length <= 12"}
